@@ -77,3 +77,26 @@ claim("C14",
       "The eight crash/garbage defects of the pinned release are repaired (fix: commits) and their inputs run first as a corpus.",
       "Lean 4 proof (totality of an outcome-typed model incl. termination measure) + outcome-class correspondence in debug and release builds under process isolation",
       "DESIGN.md section 6 C14")
+claim("C04",
+      "[full] Metadata: num_cells_exact (12, then 60*4^(r-1) for r <= 27; the JavaScript-rounded literals at 28..30 differ by 40/160/360 and denote the same f64), cell_area_is_quotient (all 31 tabulated areas, as exact rationals, are within 2^-52 relative of AUTHALIC_AREA / N(r) with the exact N; "
+      "the six rows that are one ulp off the correctly rounded f64 quotient are listed, not hidden), cell_area_is_table (the metadata call returns exactly the tabulated row), cells_tile_the_sphere - kernel-checked on the tables regenerated from cell_info.rs. "
+      "[partial] The polygon clause (every cell's boundary encloses 4*pi/N) rests on the projection being area-preserving (C16, analytic core not proved): it is model-validated (bit-exact correspondence of cell_to_boundary) and searched with an independent area integrator on the authalic sphere: "
+      "all cells r<=2 (quick) / r<=4 (thorough), cells at poles / antimeridian / dodecahedron vertex and seam latitudes at every resolution, random cells to r=29; worst relative error is reported (4e-5 after the repair of defect F14, which this search found).",
+      "Lean 4 proof (decide +kernel over the regenerated metadata tables, exact rational arithmetic) + bit-exact correspondence + independent spherical-area search",
+      "DESIGN.md section 6 C04",
+      "Polygon areas are measured by /verif/vlib/geo.py (WGS84 closed-form authalic latitude, l'Huilier / tangent-plane integrator), trusted as the oracle of the search.")
+claim("C17",
+      "[full, exact arithmetic] For every depth n <= 30, every one of the six orientations and all 4^n positions (induction over digit lists; no bound): the two digit-shift passes are mutually inverse bijections for any pattern that is a permutation of 0..7 (checked by decide on the regenerated PATTERN / PATTERN_FLIPPED), "
+      "locate_anchor (over ANY linearly ordered field, hence over R and Q): every point strictly inside the lattice triangle of the anchor of position s is located back to s by ij_to_s - the SAME generic Lean definition that runs at Float in the correspondence; positions_injective / triangles_disjoint; "
+      "positions_onto_lattice_triangles (every off-lattice point of the quintant triangle lies in the triangle of exactly one position: no position unused, no cell reachable twice); centres_in_quintant_triangle; s_to_anchor / ij_to_s total (no overflow) and ij_to_s < 4^n at any scalar type; "
+      "orientation flag sets of the two Rust functions agree and never set flipIJ and invertJ together (decide on the regenerated sets). "
+      "[numeric residue, searched] that the float pentagon centre lies strictly inside its anchor triangle: measured on every run (margin 0.148655 lattice units at every depth) with the full round trip s -> anchor -> pentagon -> centre -> ij_to_s = s on the implementation, exhaustive for n <= 5 (quick) / n <= 8 (thorough) x 6 orientations, patterned positions to n = 29.",
+      "Lean 4 proof (induction over quaternary digit lists; 16-case subdivision lemma over an ordered field; decide on regenerated tables) + bit-exact correspondence + exhaustive small-depth round trips",
+      "DESIGN.md section 6 C17")
+claim("C18",
+      "[full] segment_quintant_bijection (all 12 faces x 5, both directions, same orientation; every layout is one of the four named fans; ORIGIN_ORDER is a permutation) by decide over the regenerated tables through integer mirrors tied to the model by rfl; "
+      "haversine_is_chord over R for ALL angles (the selection measure equals (1 - <p,a>)/2, so minimising it minimises great-circle distance; haversine_orders_by_distance via arccos), nearest_is_argmin (the fold returns the first minimiser over any linear order; the Float model is that fold by rfl); "
+      "frame_regular: from the exact dyadic values of the 12 regenerated quaternions: unit norm to 2^-48, face 0 = (0,0,1), antipode table, every other pair |5 d^2 - 1| < 2^-40 (63.435 deg or its supplement), exactly five neighbours each; LONGITUDE_OFFSET = 93 exactly. "
+      "[partial] float rounding inside haversine and ties on seams are outside the theorems: nearest-face selection is searched against a direct 3-D dot-product argmax on uniform points and points within 1e-12..1e-7 of the seams; base-cell centres, pole lookups and the frame read from the running library are checked on every run.",
+      "Lean 4 proof (decide +kernel over regenerated tables and exact dyadic constants; real-analysis identity in Mathlib) + bit-exact correspondence + seam-focused search",
+      "DESIGN.md section 6 C18")
